@@ -54,6 +54,12 @@ STATES = {
 }
 
 
+class FrozenTable(dict):
+    """hashable read-only mapping (a folded module-level table)"""
+    def __hash__(self):
+        return hash(tuple(sorted((repr(k), repr(v)) for k, v in self.items())))
+
+
 def tjoin(a, b):
     from ..inter import join_any
     if isinstance(a, tuple) and isinstance(b, tuple) and a and b and a[0] == "format-result" and b[0] == "format-result" and a[1] == b[1]:
@@ -77,7 +83,43 @@ class TFlow(InterFlow):
         s = self.inter.ctx.prog.fold_str(self.fi.module, e)
         if s is not None:
             return const(s)
+        c = self.fold_container(e)
+        if c is not None:
+            return const(c)
         return TOP
+
+    def fold_container(self, node, depth=0):
+        """a module-level table of templates (dict / tuple displays of string constants, possibly nested) as a Python value"""
+        prog, mod = self.inter.ctx.prog, self.fi.module
+        if depth > 6:
+            return None
+        if isinstance(node, ast.Constant):
+            return node.value
+        if isinstance(node, ast.Name):
+            s_ = prog.fold_str(mod, node)
+            if s_ is not None:
+                return s_
+            cst = mod.consts.get(node.id)
+            return self.fold_container(cst, depth + 1) if cst is not None else None
+        if isinstance(node, (ast.Tuple, ast.List)):
+            vals = [self.fold_container(x, depth + 1) for x in node.elts]
+            return None if any(v is None for v in vals) else tuple(vals)
+        if isinstance(node, ast.Dict):
+            out = {}
+            for k, v in zip(node.keys, node.values):
+                kk = self.fold_container(k, depth + 1) if k is not None else None
+                vv = self.fold_container(v, depth + 1)
+                if kk is None or vv is None:
+                    return None
+                out[kk] = vv
+            return FrozenTable(out)
+        s_ = prog.fold_str(mod, node) if isinstance(node, ast.expr) else None
+        return s_
+
+    def unpack(self, v, n, value_expr, env):
+        if is_const(v) and isinstance(v[1], tuple) and len(v[1]) == n:
+            return [const(x) for x in v[1]]
+        return super().unpack(v, n, value_expr, env)
 
     def aug(self, s, cur, v, env):
         if isinstance(s.op, ast.Add) and is_const(cur) and is_const(v) and isinstance(cur[1], str) and isinstance(v[1], str):
@@ -88,6 +130,18 @@ class TFlow(InterFlow):
         if isinstance(e, ast.Dict) and all(isinstance(k, ast.Constant) for k in e.keys):
             return ("dictlit", tuple((k.value, self.tagged(v, env)) for k, v in zip(e.keys, e.values)))
         if isinstance(e, ast.Subscript):
+            base_v = self.eval(e.value, env)
+            if is_const(base_v) and isinstance(base_v[1], (tuple, FrozenTable)):
+                kv = self.eval(e.slice, env)
+                if isinstance(e.slice, ast.Tuple):
+                    parts = [self.eval(x, env) for x in e.slice.elts]
+                    kv = const(tuple(p_[1] for p_ in parts)) if all(is_const(p_) for p_ in parts) else TOP
+                if is_const(kv):
+                    try:
+                        return const(base_v[1][kv[1]])
+                    except (KeyError, IndexError, TypeError):
+                        return TOP
+                return TOP
             b = path_key(e.value)
             cur = env.get(b) if b else None
             if isinstance(cur, tuple) and cur and cur[0] == "dictlit" and isinstance(e.slice, ast.Constant):
